@@ -283,11 +283,14 @@ class CommonModels(Models):
 
     def str_format(self, ex, path, fmt, arg):
         ok, c = concrete_of(fmt)
-        if ok and c.count('%') == 1 and c.count('%s') == 1:
-            a = arg.items[0] if isinstance(arg, VTuple) and len(arg.items) == 1 else arg
-            if isinstance(a, VStr):
-                pre, post = c.split('%s')
-                return [(path, VStr(z3.Concat(mk_str(pre), a.t, mk_str(post))))]
+        if ok and c.count('%') == c.count('%s') and c.count('%s') >= 1:
+            items = arg.items if isinstance(arg, VTuple) else [arg]
+            if len(items) == c.count('%s') and all(isinstance(a, VStr) for a in items):
+                parts = c.split('%s')
+                t = mk_str(parts[0])
+                for a, lit in zip(items, parts[1:]):
+                    t = z3.Concat(t, a.t, mk_str(lit))
+                return [(path, VStr(z3.simplify(t)))]
         return Models.str_format(self, ex, path, fmt, arg)
 
 
